@@ -10,6 +10,7 @@ package main
 import (
 	"fmt"
 	"go/ast"
+	"go/constant"
 	"go/token"
 	"go/types"
 	"math/big"
@@ -30,6 +31,8 @@ func checkC10(p *Prog, r *Report) {
 	c10Writers(p, r)
 	// a scheduled tillage must not be postponed before the crop is sown (shared with C16.R14)
 	tillagePostponement(p, r, "C10.R12")
+	headerLineCounts(p, r, "C10.R13")
+	readersAllLines(p, r, "C10.R14")
 	// schedule dates are text in the configured date format ("all date formats")
 	dateTextRules(p, r, "C10.R9")
 	inputHelpers(p, r, "C10.R10")
@@ -1410,6 +1413,258 @@ func c10Writers(p *Prog, r *Report) {
 			}
 			reason, ok := c10WriterTable[f][w.Key]
 			r.Ob("writer:"+f+":"+strings.TrimPrefix(w.Key, "hermes."), p.Pos(w.Decl.Pos()), ok, orStr(reason, "not a confirmed writer of "+f+": a cursor or event date changed here can skip or repeat a scheduled action"))
+		}
+	}
+}
+
+// ---------------------------------------------------------------- header lines of the schedule and table files
+
+// headerLineCounts: how many lines a reader skips before its first record is the file format's header length; the
+// code is the only place where it is written down, and the shipped files are the confirmation (every shipped batch
+// parses under these counts).  One skip more loses the first record of a file in the documented layout (silently,
+// when that record belongs to the simulated field); one skip fewer only works while the extra header line happens
+// not to look like a record.  Frozen table, one entry per opened file, keyed by the reading function and the file's
+// description (or its ordinal among the function's opens); re-validated on every run: an entry whose open is gone, or
+// an open without an entry, is reported.
+var headerLineTable = map[string]struct {
+	n   int
+	why string
+}{
+	"Input:polygonfile":        {1, "poly_<project>.txt: one column line"},
+	"Input:irrigation file":    {1, "irr_<project>.txt: column line; the units line below it is no field line and is skipped by the field-id test"},
+	"Input:rotation file":      {1, "crop_<project>: one header line (also parsed for the csv column names)"},
+	"Input:automated file":     {1, "automan.txt: one column line"},
+	"Input:automated file#2":   {1, "automan.txt: one column line"},
+	"Input:tillage file":       {2, "til_<project>.txt: column line and units line"},
+	"Input:fertilization file": {1, "fert_<project>.txt: one column line"},
+	"residi:#1":                {0, "CROP_N.TXT: no line is skipped, the caption is no crop code"},
+	"resid:#1":                 {0, "CROP_N.TXT: no line is skipped, the caption is no crop code"},
+}
+
+func headerLineCounts(p *Prog, r *Report, rule string) {
+	r.Rule(rule, "header length of the schedule and table files: between opening a file and its record loop each reader skips the number of lines the format has (frozen table confirmed on the shipped files; an unknown open or a vanished one is reported)", 7)
+	seen := map[string]bool{}
+	for _, key := range []string{"hermes.Input", "hermes.residi", "hermes.resid"} {
+		fi := p.Funcs[key]
+		if fi == nil {
+			continue
+		}
+		info := fi.Pkg.TypesInfo
+		type open struct {
+			pos  token.Pos
+			obj  types.Object
+			desc string
+		}
+		var opens []open
+		ast.Inspect(fi.Decl.Body, func(n ast.Node) bool {
+			as, ok := n.(*ast.AssignStmt)
+			if !ok || len(as.Rhs) != 1 || len(as.Lhs) != 3 {
+				return true
+			}
+			c, ok := as.Rhs[0].(*ast.CallExpr)
+			if !ok {
+				return true
+			}
+			se, ok := c.Fun.(*ast.SelectorExpr)
+			if !ok || se.Sel.Name != "Open" {
+				return true
+			}
+			id, ok := as.Lhs[1].(*ast.Ident)
+			if !ok {
+				return true
+			}
+			o := info.Defs[id]
+			if o == nil {
+				o = info.Uses[id]
+			}
+			desc := ""
+			ast.Inspect(c, func(m ast.Node) bool {
+				if kv, ok := m.(*ast.KeyValueExpr); ok {
+					if k, ok := kv.Key.(*ast.Ident); ok && k.Name == "FileDescription" {
+						if tv, has := info.Types[kv.Value]; has && tv.Value != nil {
+							desc = constant.StringVal(tv.Value)
+						}
+					}
+				}
+				return true
+			})
+			opens = append(opens, open{as.Pos(), o, desc})
+			return true
+		})
+		ord := map[string]int{}
+		for i, op := range opens {
+			k := short(key) + ":" + op.desc
+			if op.desc == "" {
+				k = fmt.Sprintf("%s:#%d", short(key), i+1)
+			}
+			ord[k]++
+			if ord[k] > 1 {
+				k = fmt.Sprintf("%s#%d", k, ord[k])
+			}
+			// skips: calls LineInut(obj) after the open and before the first loop statement that mentions obj
+			firstLoop := token.Pos(1 << 40)
+			ast.Inspect(fi.Decl.Body, func(n ast.Node) bool {
+				var body ast.Node
+				switch t := n.(type) {
+				case *ast.ForStmt:
+					body = t
+				case *ast.RangeStmt:
+					body = t
+				default:
+					return true
+				}
+				if n.Pos() < op.pos || n.Pos() >= firstLoop {
+					return true
+				}
+				uses := false
+				ast.Inspect(body, func(m ast.Node) bool {
+					if id, ok := m.(*ast.Ident); ok && info.Uses[id] == op.obj {
+						uses = true
+					}
+					return true
+				})
+				// the loop must START after the open (a loop that encloses the open is not the record loop)
+				if uses && n.Pos() > op.pos {
+					firstLoop = n.Pos()
+				}
+				return true
+			})
+			n := 0
+			ast.Inspect(fi.Decl.Body, func(m ast.Node) bool {
+				c, ok := m.(*ast.CallExpr)
+				if !ok || c.Pos() < op.pos || c.Pos() >= firstLoop || len(c.Args) != 1 {
+					return true
+				}
+				if f, ok := c.Fun.(*ast.Ident); ok && f.Name == "LineInut" {
+					if a, ok := c.Args[0].(*ast.Ident); ok && info.Uses[a] == op.obj {
+						n++
+					}
+				}
+				return true
+			})
+			want, known := headerLineTable[k]
+			if !known {
+				continue // files outside the table (parameter tables read by position) are not judged
+			}
+			seen[k] = true
+			r.Ob("header-lines:"+k, p.Pos(op.pos), n == want.n, fmt.Sprintf("%d line(s) skipped before the record loop, the format has %d (%s)", n, want.n, want.why))
+		}
+	}
+	var missing []string
+	for k := range headerLineTable {
+		if !seen[k] {
+			missing = append(missing, k)
+		}
+	}
+	sort.Strings(missing)
+	if len(missing) > 0 {
+		r.Ob("header-lines:table", "-", false, fmt.Sprintf("table entries without a matching open: %v", missing))
+	}
+}
+
+// ---------------------------------------------------------------- schedule and rotation files are read to their end
+
+// readersAllLines: the rows of one field need not form one block (a file sorted by date or by year interleaves the
+// fields).  The outer record loop of the rotation, fertiliser, tillage and irrigation readers re-enters the field's
+// inner loop whenever the field's id shows again; it must therefore run to the end of the file: no break that leaves
+// it.
+func readersAllLines(p *Prog, r *Report, rule string) {
+	r.Rule(rule, "the rotation, fertiliser, tillage and irrigation readers scan their file to the end: the outer record loop of each has no break (the rows of one field need not be contiguous)", 4)
+	fi := p.Funcs["hermes.Input"]
+	if fi == nil {
+		r.Ob("all-lines", "-", false, "hermes.Input not found")
+		return
+	}
+	info := fi.Pkg.TypesInfo
+	want := map[string]bool{"rotation file": true, "fertilization file": true, "tillage file": true, "irrigation file": true}
+	found := map[string]bool{}
+	ast.Inspect(fi.Decl.Body, func(n ast.Node) bool {
+		as, ok := n.(*ast.AssignStmt)
+		if !ok || len(as.Rhs) != 1 || len(as.Lhs) != 3 {
+			return true
+		}
+		c, ok := as.Rhs[0].(*ast.CallExpr)
+		if !ok {
+			return true
+		}
+		if se, ok := c.Fun.(*ast.SelectorExpr); !ok || se.Sel.Name != "Open" {
+			return true
+		}
+		id, ok := as.Lhs[1].(*ast.Ident)
+		if !ok {
+			return true
+		}
+		o := info.Defs[id]
+		desc := ""
+		ast.Inspect(c, func(m ast.Node) bool {
+			if kv, ok := m.(*ast.KeyValueExpr); ok {
+				if k, ok := kv.Key.(*ast.Ident); ok && k.Name == "FileDescription" {
+					if tv, has := info.Types[kv.Value]; has && tv.Value != nil {
+						desc = constant.StringVal(tv.Value)
+					}
+				}
+			}
+			return true
+		})
+		if !want[desc] || o == nil {
+			return true
+		}
+		// first loop after the open whose init calls NextLineInut with this scanner
+		var loop *ast.ForStmt
+		ast.Inspect(fi.Decl.Body, func(m ast.Node) bool {
+			f, ok := m.(*ast.ForStmt)
+			if !ok || f.Pos() < as.Pos() || loop != nil || f.Init == nil {
+				return true
+			}
+			uses := false
+			ast.Inspect(f.Init, func(q ast.Node) bool {
+				if id, ok := q.(*ast.Ident); ok && info.Uses[id] == o {
+					uses = true
+				}
+				return true
+			})
+			if uses {
+				loop = f
+			}
+			return true
+		})
+		if loop == nil {
+			r.Ob("all-lines:"+desc, p.Pos(as.Pos()), false, "record loop not found")
+			return true
+		}
+		found[desc] = true
+		// breaks that target this loop: not nested in an inner for/range/switch/select
+		leaves := ""
+		var visit func(n ast.Node)
+		visit = func(n ast.Node) {
+			switch t := n.(type) {
+			case nil:
+			case *ast.BlockStmt:
+				for _, s := range t.List {
+					visit(s)
+				}
+			case *ast.IfStmt:
+				visit(t.Body)
+				if t.Else != nil {
+					visit(t.Else)
+				}
+			case *ast.LabeledStmt:
+				visit(t.Stmt)
+			case *ast.BranchStmt:
+				if t.Tok == token.BREAK || t.Tok == token.GOTO {
+					leaves += p.Pos(t.Pos()) + " "
+				}
+			case *ast.ReturnStmt:
+				// an error return ends the run, not the scan
+			}
+		}
+		visit(loop.Body)
+		r.Ob("all-lines:"+desc, p.Pos(loop.Pos()), leaves == "", fmt.Sprintf("the record loop of the %s runs to the end of the file: break statements that leave it: %s", desc, orStr(leaves, "none")))
+		return true
+	})
+	for d := range want {
+		if !found[d] {
+			r.Ob("all-lines:"+d, "-", false, "reader of the "+d+" not found in the input routine")
 		}
 	}
 }
